@@ -6,6 +6,8 @@ mod c15;
 mod c17;
 mod cli;
 mod entries;
+mod exchange;
+mod exchange2;
 mod fuzz;
 mod idrules;
 mod layout;
@@ -312,6 +314,27 @@ fn run(cmd: &str, args: &[String], seed: u64, rep: &mut Report) {
                 mutations: vec![],
             };
             cli::replay(&ctx, arg(&args, "--bin").unwrap(), &read_ndjson(arg(&args, "--in").unwrap()), seed, arg_u64(&args, "--reps", 1) as usize, &mut rep);
+        }
+        "exchange-behaviours" => {
+            let ctx = exchange::Ctx {
+                layouts: layout::LayoutSet::load(arg(&args, "--layouts").unwrap()),
+                templates: template::Templates::load(arg(&args, "--templates").unwrap()),
+            };
+            let only: Vec<&'static str> = arg(&args, "--only")
+                .map(|s| s.split(',').map(|x| &*Box::leak(x.to_string().into_boxed_str())).collect())
+                .unwrap_or_default();
+            exchange::replay(&ctx, &read_ndjson(arg(&args, "--in").unwrap()), seed, arg_u64(&args, "--reps", 1) as usize, &only, &mut rep);
+        }
+        "minecraft-behaviours" => {
+            let l = layout::LayoutSet::load(arg(&args, "--layouts").unwrap());
+            exchange2::replay_minecraft(&l, &read_ndjson(arg(&args, "--in").unwrap()), seed, arg_u64(&args, "--reps", 1) as usize, &mut rep);
+        }
+        "unreal2-behaviours" => {
+            let l = layout::LayoutSet::load(arg(&args, "--layouts").unwrap());
+            let only: Vec<&'static str> = arg(&args, "--only")
+                .map(|s| s.split(',').map(|x| &*Box::leak(x.to_string().into_boxed_str())).collect())
+                .unwrap_or_default();
+            exchange2::replay_unreal2(&l, &read_ndjson(arg(&args, "--in").unwrap()), seed, arg_u64(&args, "--reps", 1) as usize, &only, &mut rep);
         }
         "settings-real" => settings::real_sockets(&mut rep),
         "master" => master::replay(&read_ndjson(arg(&args, "--in").unwrap()), seed, arg_u64(&args, "--reps", 1) as usize, &mut rep),
